@@ -126,6 +126,41 @@ pub fn plan(prop: &str, tier: &str, seed: u64) -> Option<Plan> {
                 _ => vec![],
             };
         }
+        "C14" => {
+            p.eval_counter = "c14_cases";
+            p.min_eval = 10000;
+            p.min_distinct = 20;
+            p.rule = "case = (buffer kind in {fresh, recycled with offset != buffer_offset, aligned with padding, flush at the arena end} x capacity x arena flavour x handle kind) x fill level x call (put/put_unchecked/write/get for 12 integer types x 3 byte orders, u8/i8, put_slice of every length 0..cap+2, io::Write, set_len to every length, 8 varint put/get pairs, align_to / put / put_aligned for 6 layouts) x 5 values; the type x order x fill matrix is enumerated completely for capacities 0..40, larger capacities are sampled; oracle = return value, len(), and a whole-arena byte image before/after each call; distinct_nontrivial = distinct (kind, capacity, flavour) buffers whose full matrix was executed".into();
+            let mk = |label: &str, variant: &str, extra: &[&str]| {
+                let mut a = sv(&["bufs", "--seed", &seed.to_string()]);
+                a.extend(sv(extra));
+                let mut j = Job::new(label, &bin(variant), a);
+                j.timeout_s = 900;
+                j
+            };
+            for (i, (lo, hi)) in [(0, 16), (17, 26), (27, 33), (34, 40)].iter().enumerate() {
+                p.jobs.push(mk(&format!("bufs-rel-{}", i), "rel", &["--cap", &lo.to_string(), "--cap-to", &hi.to_string()]));
+            }
+            p.jobs.push(mk("bufs-rel-end", "rel", &["--kind", "EndFlush", "--cap", "0", "--cap-to", "40"]));
+            p.jobs.push(mk("bufs-rel-big", "rel", &["--cap", "41", "--cap-to", "41", "--random-caps", if quick { "6" } else { "60" }]));
+            p.jobs.push(mk("bufs-dbg", "dbg", &["--cap", "0", "--cap-to", if quick { "12" } else { "40" }, "--thin"]));
+            p.jobs.push(mk("bufs-dbg-end", "dbg", &["--kind", "EndFlush", "--cap", "0", "--cap-to", if quick { "12" } else { "40" }, "--thin"]));
+            if !quick && have("asan") {
+                for extra in [vec!["--cap", "0", "--cap-to", "40"], vec!["--kind", "EndFlush", "--cap", "0", "--cap-to", "40"]] {
+                    let mut j = mk("bufs-asan", "asan", &extra);
+                    j.env.push(("ASAN_OPTIONS".into(), "detect_leaks=0:halt_on_error=1:exitcode=67".into()));
+                    j.report_codes = vec![67];
+                    p.jobs.push(j);
+                }
+            }
+            p.required_nonzero = sv(&["c14_roundtrips", "c14_refusals", "c14_varint_roundtrips", "c14_align_ok", "c14_put_aligned_ok"]);
+            p.extra_prefixes = vec!["c14_"];
+            p.assumptions = vec![
+                "bytes inside the buffer after a refused varint put are not asserted (the statement promises unchanged bytes only for fixed-width puts)".into(),
+                "address alignment of align_to is asserted for alignments <= 8 (the arena's base alignment); offset alignment always".into(),
+                "writes past the end of the backing store are only visible to the ASan run (thorough) and as a crash of the flush-at-end child".into(),
+            ];
+        }
         _ => return None,
     }
     Some(p)
